@@ -9,6 +9,8 @@ import (
 	"encoding/hex"
 	"encoding/json"
 	"fmt"
+	"github.com/gr33nbl00d/caddy-revocation-validator/config"
+	"golang.org/x/crypto/ocsp"
 	"math/big"
 	"math/rand"
 	"os"
@@ -202,6 +204,13 @@ func (s *scn) judge(fault, backend string, l *loaded, faultHitsRead bool, desc s
 	return ok
 }
 
+func modeKey(m string) string {
+	if m == "" {
+		return "unset"
+	}
+	return m
+}
+
 func ldbFiles(dir string) []string {
 	var out []string
 	_ = filepath.Walk(dir, func(p string, info os.FileInfo, err error) error {
@@ -274,7 +283,7 @@ func main() {
 		return
 	}
 	run := report.New("C09", "fault_enumeration")
-	run.Rule("faults applied to the real store while the checker holds it: F1 database handle closed under the repository; F2 byte flips / truncation of every table file and the MANIFEST at seeded offsets and single-bit flips inside the stored key of a listed record, then restart, every entry of the list probed; F3 a listed record's value overwritten (garbage / empty / truncated / one bit of its serialNumber flipped) through a second handle while the checker is down; F4 Cleanup overlapping in-flight lookups (both backends); F5 EIO injected by strace into every pread64 from the N-th on in a child doing lookups on a prepared disk image; F7 the live database directory removed from work_dir followed by a refresh; F6 a swap that fails half way (target made non-renamable between 'old moved aside' and 'new moved in'), then lookups of a configured CRL; for listed and unlisted certificates at Repository.IsRevoked and CRLRevocationChecker.IsRevoked; oracle: under an active fault (Revoked=false, err=nil) for a listed certificate is a violation; for an unlisted one only when the fault provably hit the read; non-trivial = fault case in which the fault surfaced as an error or verifiably missed the read; distinct = fault case descriptor")
+	run.Rule("faults applied to the real store while the checker holds it: F1 database handle closed under the repository; F2 byte flips / truncation of every table file and the MANIFEST at seeded offsets and single-bit flips inside the stored key of a listed record, then restart, every entry of the list probed; F3 a listed record's value overwritten (garbage / empty / truncated / one bit of its serialNumber flipped) through a second handle while the checker is down; F4 Cleanup overlapping in-flight lookups (both backends); F5 EIO injected by strace into every pread64 from the N-th on in a child doing lookups on a prepared disk image; F8 at validator level (modes unset / prefer_ocsp / prefer_crl / crl_only, OCSP healthy and answering good) the CRL repository closed: the handshake is denied; F7 the live database directory removed from work_dir followed by a refresh; F6 a swap that fails half way (target made non-renamable between 'old moved aside' and 'new moved in'), then lookups of a configured CRL; for listed and unlisted certificates at Repository.IsRevoked and CRLRevocationChecker.IsRevoked; oracle: under an active fault (Revoked=false, err=nil) for a listed certificate is a violation; for an unlisted one only when the fault provably hit the read; non-trivial = fault case in which the fault surfaced as an error or verifiably missed the read; distinct = fault case descriptor")
 	run.Assume("strict CDP mode for on-disk corruption cases, so that a store that cannot even be opened is denied by the strict gate rather than silently unknown", "F5: strace injects EIO into pread64 (goleveldb table reads) of a child process from the N-th call on, N per thread")
 	scratch, _ := report.Scratch("C09")
 	sut.QuietStderr(filepath.Join(scratch, "stderr.log"))
@@ -630,6 +639,60 @@ func main() {
 			l.chk.Refresh() // fails after ~5 s of rename retries
 			s.judge("F7-store-directory-vanished-then-refresh", "disk", l, false, fmt.Sprintf("F7 the live database directory was removed from work_dir, then a refresh ran (configured=%v)", configured))
 		}})
+	}
+
+	// F8 (whole validator): the CRL store fails at lookup time while OCSP is healthy and says 'good'.
+	// Every mode that enables CRL checking has to deny (the status according to the CRL is unknown).
+	for _, mode := range []string{"", "prefer_ocsp", "prefer_crl", "crl_only"} {
+		for _, backend := range []string{"disk", "memory"} {
+			mode, backend := mode, backend
+			jobs = append(jobs, job{fmt.Sprintf("F8 mode=%q %s", mode, backend), func(s *scn) {
+				s.n++
+				wd := filepath.Join(s.scratch, fmt.Sprintf("wdv%d", s.n))
+				_ = os.MkdirAll(wd, 0755)
+				defer os.RemoveAll(wd)
+				path := fmt.Sprintf("/v%d.crl", s.n)
+				es := gen.Entries(s.rng, gen.Opts{N: 20, SerialWidth: 9})
+				s.w.CRL.Set(path, origin.Good(gen.SpecFor(s.w.Int, es).Build(s.w.Int.Key).DER))
+				s.w.OCSP.Set("/f8-good", world.Responder(s.w.Int, nil, nil, func(*big.Int) world.OCSPStatus { return world.OCSPStatus{Status: ocsp.Good} }))
+				intPEM := pki.WritePEM(filepath.Join(s.scratch, fmt.Sprintf("int-v%d.pem", s.n)), s.w.Int.Cert)
+				cfg := sut.CRLCfg(wd, backend, "verify", "fetch_actively", false, "")
+				cfg.CRLUrls = []string{s.w.CRL.URL(path)}
+				cfg.TrustedSignatureCertsFiles = []string{intPEM}
+				v, err := sut.Provision(sut.Config{Mode: mode, CRL: cfg, OCSP: &config.OCSPConfig{TrustedResponderCertsFiles: []string{intPEM}}})
+				if err != nil {
+					s.run.Inconclusive("F8 setup: " + err.Error())
+					return
+				}
+				cleaned := false
+				defer func() {
+					// Cleanup runs once per module (as Caddy does it): after the fault only the OCSP side is left
+					if !cleaned {
+						_ = v.Cleanup()
+					} else if _, oc := v.Val.VerifCheckers(); oc != nil {
+						_ = oc.Cleanup()
+					}
+				}()
+				desc := fmt.Sprintf("F8 validator mode=%q backend=%s: CRL repository closed under the validator, OCSP responder healthy and answering good", mode, backend)
+				listed := s.w.Leaf(es[3].Serial, nil, []string{s.w.OCSP.URL("/f8-good")})
+				unl := s.w.Leaf(gen.SerialOfWidth(s.rng, 10, false), nil, []string{s.w.OCSP.URL("/f8-good")})
+				if v.Verify(listed) == nil || v.Verify(unl) != nil {
+					s.run.Inconclusive("F8 setup: the healthy validator does not reject the listed / accept the unlisted certificate")
+					return
+				}
+				crlChk, _ := v.Val.VerifCheckers()
+				_ = crlChk.Cleanup() // closes the repository: every lookup reports an error from now on
+				cleaned = true
+				for name, ch := range map[string][]*x509.Certificate{"listed": listed, "unlisted": unl} {
+					s.run.Eval(1)
+					if v.Verify(ch) == nil {
+						s.run.Violation("F8-validator.crl-store-failure-accepted."+modeKey(mode)+"."+name, desc+": the "+name+" certificate was accepted", &report.Replay{Case: desc})
+						return
+					}
+				}
+				s.run.NonTrivial(desc)
+			}})
+		}
 	}
 
 	if !isShard {
